@@ -243,8 +243,7 @@ def run_history_check(prop, tier, mode, runs, cat, budget_s, design_ref, assumpt
         print("VIOLATION property=%s replay=%s" % (prop, path))
         print("  class=%s kind=%s step=%s occurrences=%d detail=%s" % (d["class"], d["dict_kind"], d.get("step"), len(lst), (rec.get("detail") or d.get("first_repo_function") or "")[:300]))
         violations.append({"class": d["class"], "kind": d["dict_kind"], "replay": path, "occurrences": len(lst)})
-        if exit_code == 0:
-            exit_code = 1
+        exit_code = 1
     extra_classes = max(0, handled - 6)
 
     # ---- samples ----
